@@ -180,3 +180,45 @@ Definition check_textcard (c : textcard_case) : bool :=
 (* (l) Card.content() *)
 Definition content_case : Type := (list string * string)%type.
 Definition check_content (c : content_case) : bool := String.eqb (content (fst c)) (snd c).
+
+(* ---------- the linked pipeline (C02/LinkC04.v) ---------- *)
+From T4V Require C04.Model.
+From T4V Require Import C02.LinkC04.
+
+Definition kind_of4 (k : T4V.C04.Model.t4kind) : t4type :=
+  match k with
+  | T4V.C04.Model.PLANEX => PLANEX | T4V.C04.Model.PLANEY => PLANEY | T4V.C04.Model.PLANEZ => PLANEZ
+  | T4V.C04.Model.PLANE => PLANE | T4V.C04.Model.SPHERE => SPHERE
+  | T4V.C04.Model.CYLX => CYLX | T4V.C04.Model.CYLY => CYLY | T4V.C04.Model.CYLZ => CYLZ
+  | T4V.C04.Model.CYL => CYL
+  | T4V.C04.Model.CONEX => CONEX | T4V.C04.Model.CONEY => CONEY | T4V.C04.Model.CONEZ => CONEZ
+  | T4V.C04.Model.CONE => CONE | T4V.C04.Model.QUAD => QUAD
+  | T4V.C04.Model.TORUSX => TORUSX | T4V.C04.Model.TORUSY => TORUSY | T4V.C04.Model.TORUSZ => TORUSZ
+  end.
+
+(* (m) a card with a TR number: C02's to_surface_mcnp, the bridge to_ms, C04's
+   transformation and convert, against to_surface_mcnp(transform_id) +
+   convert_mcnp_surface; None = the implementation raised *)
+Definition trcard_case : Type :=
+  (list float * mnem * list float * option (list (t4type * list float * Z)))%type.
+Fixpoint all2 {A B} (e : A -> B -> bool) (a : list A) (b : list B) : bool :=
+  match a, b with
+  | [], [] => true
+  | x :: a', y :: b' => e x y && all2 e a' b'
+  | _, _ => false
+  end.
+
+Definition trsurf_eqb (a : T4V.C04.Model.t4surf float * Z) (b : t4type * list float * Z) : bool :=
+  let '(ty, ps, side) := b in
+  t4type_eqb (kind_of4 (T4V.C04.Model.tk (fst a))) ty
+  && floats_eqb (T4V.C04.Model.tprm (fst a)) ps
+  && Z.eqb (snd a) side
+  && match T4V.C04.Model.ttr (fst a) with None => true | Some _ => false end.
+
+Definition check_trcard (c : trcard_case) : bool :=
+  let '(tr, mn, prm, expected) := c in
+  match card_tr_convert_g FS tr mn prm, expected with
+  | T4V.C04.Model.Ok l, Some l' => all2 trsurf_eqb l l'
+  | T4V.C04.Model.Err _, None => true
+  | _, _ => false
+  end.
